@@ -1,1 +1,7 @@
 import FfuzzyProofs.Tables
+import FfuzzyProofs.Lcs
+import FfuzzyProofs.Hyyro
+import FfuzzyProofs.CommonSub
+import FfuzzyProofs.PosArrayInit
+import FfuzzyProofs.Properties.C08
+import FfuzzyProofs.Properties.C09
